@@ -261,18 +261,169 @@ def run_one(mid, prop, rel, edit, expect, what):
     return (mid, prop, "MISSED", what)
 
 
+# ------------------------------------------------------------------------------------------------
+# patch-based variants: the seeded changes kept under /verif/seeded (each confirmed to break its property while
+# the test suite passes) and the behaviour-preserving refactors under /verif/neutral.  The unified diff is applied to
+# the *current* source text in memory; a patch whose context no longer matches is skipped (the tree moved on).
+
+VERIF_DIR = os.path.dirname(os.path.dirname(os.path.abspath(__file__)))
+
+
+def parse_patch(text: str) -> dict:
+    """git unified diff -> {rel: [ (old_start, [(tag, line)]) ]}; tag in ' ', '-', '+'.  None for a file the patch
+    deletes or renames (not supported: the variant is skipped)."""
+    files, cur, hunk = {}, None, None
+    lines = text.split("\n")
+    i = 0
+    while i < len(lines):
+        ln = lines[i]
+        if ln.startswith("diff --git "):
+            cur, hunk = None, None
+        elif ln.startswith("rename from") or ln.startswith("deleted file"):
+            return None
+        elif ln.startswith("+++ "):
+            path = ln[4:].strip()
+            if path == "/dev/null":
+                return None
+            cur = path[2:] if path[:2] in ("a/", "b/") else path
+            files[cur] = []
+        elif ln.startswith("--- "):
+            pass
+        elif ln.startswith("@@") and cur is not None:
+            try:
+                old = ln.split(" ")[1]
+                start = int(old[1:].split(",")[0])
+            except (IndexError, ValueError):
+                return None
+            hunk = (start, [])
+            files[cur].append(hunk)
+        elif hunk is not None and ln[:1] in (" ", "-", "+"):
+            hunk[1].append((ln[0], ln[1:]))
+        elif hunk is not None and ln.startswith("\\"):
+            pass       # "\ No newline at end of file"
+        elif hunk is not None and ln == "" and i == len(lines) - 1:
+            pass
+        elif hunk is not None and ln == "":
+            hunk[1].append((" ", ""))
+        i += 1
+    return files
+
+
+def apply_hunks(text: str, hunks) -> "str | None":
+    src = text.split("\n")
+    out, pos = [], 0
+    for start, body in hunks:
+        old = [l for t, l in body if t in (" ", "-")]
+        want = max(start - 1, 0)
+        # exact position first, then the nearest position where the old side matches (as `git apply` does)
+        cands = [want] + [want + d * sgn for d in range(1, 400) for sgn in (1, -1)]
+        at = None
+        for c in cands:
+            if c >= pos and c + len(old) <= len(src) and src[c:c + len(old)] == old:
+                at = c
+                break
+        if at is None:
+            return None
+        out.extend(src[pos:at])
+        out.extend(l for t, l in body if t in (" ", "+"))
+        pos = at + len(old)
+    out.extend(src[pos:])
+    return "\n".join(out)
+
+
+def patch_overlay(patch_path: str):
+    """-> ({rel: new text}, None) or (None, reason)"""
+    try:
+        with open(patch_path, encoding="utf-8") as f:
+            files = parse_patch(f.read())
+    except OSError as e:
+        return None, str(e)
+    if not files:
+        return None, "patch creates, deletes or renames a file / is empty"
+    src = common.Sources()
+    overlay = {}
+    for rel, hunks in files.items():
+        if not src.exists(rel):
+            if all(t == "+" for _s, b in hunks for t, _l in b):
+                overlay[rel] = "\n".join(l for _s, b in hunks for _t, l in b) + "\n"
+                continue
+            return None, f"{rel} is not in the tree"
+        new = apply_hunks(src.text(rel), hunks)
+        if new is None:
+            return None, f"context of a hunk for {rel} no longer matches the tree"
+        if rel.endswith(".py"):
+            try:
+                ast.parse(new)
+            except SyntaxError as e:
+                return None, f"patched {rel} does not parse: {e}"
+        overlay[rel] = new
+    return overlay, None
+
+
+def patch_variants(prop: str):
+    """[(id, kind, patch path)] for one property: its seeded changes that its own check is on record as catching, and
+    every neutral refactor."""
+    import glob
+    import json
+    out = []
+    for d in sorted(glob.glob(os.path.join(VERIF_DIR, "seeded", prop + "-*", ""))):
+        try:
+            with open(d + "meta.json") as f:
+                meta = json.load(f)
+        except (OSError, ValueError):
+            continue
+        if meta.get("detection", {}).get("caught_by_own_property_check"):
+            out.append(("seeded/" + os.path.basename(d.rstrip("/")), "seeded", d + "patch.diff"))
+    for d in sorted(glob.glob(os.path.join(VERIF_DIR, "neutral", "*", ""))):
+        out.append(("neutral/" + os.path.basename(d.rstrip("/")), "neutral", d + "patch.diff"))
+    return out
+
+
+def run_patch(vid, prop, kind, patch_path):
+    overlay, why = patch_overlay(patch_path)
+    if overlay is None:
+        return (vid, prop, "skipped", why)
+    msrc = common.Sources(overlay=overlay)
+    ctx = common.Ctx(prop, "quick", 0, msrc, quiet=True)
+    mod = importlib.import_module(f"vlib.checks.{prop.lower()}")
+    err = None
+    try:
+        mod.run(ctx)
+    except common.AnalysisError as e:
+        err = str(e)[:200]
+    known = common.known_keys_for(prop)
+    hits = [f for f in ctx.findings if f.key not in known]
+    if kind == "seeded":
+        if hits:
+            return (vid, prop, "caught", f"{hits[0].rule}: {hits[0].construct[:90]}")
+        if err:
+            return (vid, prop, "analysis-error", err)
+        return (vid, prop, "MISSED", "a seeded change on record as detected is no longer reported")
+    if hits:
+        return (vid, prop, "FALSE-ALARM", f"{hits[0].rule}: {hits[0].construct[:90]}")
+    if err:
+        return (vid, prop, "analysis-error", err)
+    return (vid, prop, "silent", "")
+
+
 _TODO = []
 
 
 def _run_index(i):
-    return run_one(*_TODO[i])
+    t = _TODO[i]
+    if t[0] == "patch":
+        return run_patch(*t[1:])
+    return run_one(*t)
 
 
-def collect(props=None, jobs=16):
+def collect(props=None, jobs=16, patches=False):
     """Run the catalogue (for the given properties) and return [(id, prop, status, info)]."""
     global _TODO
     props = [p.upper() for p in (props or [])]
     todo = [m for m in MUTANTS if not props or m[1] in props]
+    if patches:
+        for p_ in props:
+            todo += [("patch", vid, p_, kind, path) for vid, kind, path in patch_variants(p_)]
     _TODO = todo
     if jobs and jobs > 1 and len(todo) > 3:
         import multiprocessing as mp
@@ -281,7 +432,7 @@ def collect(props=None, jobs=16):
                 return pool.map(_run_index, range(len(todo)))
         except (OSError, ValueError):
             pass
-    return [run_one(*m) for m in todo]
+    return [_run_index(i) for i in range(len(todo))]
 
 
 def run(props=None, jobs=16) -> int:
